@@ -217,6 +217,57 @@ func suiteIndexScan(c *Ctx) error {
 				names = append(names, n)
 			}
 			sort.Strings(names)
+			// ---- the same question put to the scan PIPELINE (cli.RunScanParallel: load the file, every
+			// function through the scanner, alerts collected per file): whatever the pipeline shares
+			// between the functions of one file, each function still gets its own alert ----
+			for _, thr := range []float64{0.5, 1.0} {
+				ps.SetThreshold(thr)
+				js.SetThreshold(thr)
+				for _, be := range []string{"pebble", "json"} {
+					for _, mode := range []string{"full", "exact"} {
+						var sc cli.SignatureScanner = ps
+						if be == "json" {
+							sc = js
+						}
+						alerts, _, perr := cli.RunScanParallel(cli.RealFileSystem{}, []string{fv}, sc, mode == "exact")
+						if perr != nil {
+							c.Skip("pipeline_scan_error")
+							continue
+						}
+						for _, orig := range names {
+							vn := v.nameOf(orig)
+							if i := strings.Index(orig, "$"); i >= 0 {
+								vn = v.nameOf(orig[:i]) + orig[i:]
+							}
+							fr, ok := byName[vn]
+							if !ok || fr.GetSSAFunction() == nil {
+								continue
+							}
+							c.Res.Evaluations++
+							wantSig := "Mal_" + cli.ShortFunctionName("genmod."+orig)
+							fnShort := cli.ShortFunctionName(fr.FunctionName)
+							found := false
+							for _, a := range alerts {
+								if a.MatchedFunction == fnShort && a.Confidence == 1.0 && (a.SignatureName == wantSig || (mode == "exact" && sigHash[a.SignatureName] == sigHash[wantSig] && sigHash[wantSig] != "")) {
+									found = true
+								}
+							}
+							if !found {
+								fam := fams[strings.SplitN(orig, "$", 2)[0]]
+								var mine []detection.ScanResult
+								for _, a := range alerts {
+									if a.MatchedFunction == fnShort {
+										mine = append(mine, a)
+									}
+								}
+								c.Violate("C05", "C05/indexed-function-not-found-by-scan-pipeline:"+v.name+":"+fam, fmt.Sprintf("%s (%s family), %s copy scanned as a FILE through cli.RunScanParallel, %s backend, %s mode, threshold %v: no alert with confidence 1.0 for %s on function %s", orig, fam, v.name, be, mode, thr, wantSig, fnShort),
+									map[string]interface{}{"function": orig, "family": fam, "variant": v.name, "source": src, "variant_source": v.src, "backend": be, "mode": mode, "threshold": thr, "alerts_for_the_function": mine, "wanted_signature": wantSig})
+							}
+						}
+						c.Count("pipeline_scan_" + be + "_" + mode)
+					}
+				}
+			}
 			for _, orig := range names {
 				vn := v.nameOf(orig)
 				if i := strings.Index(orig, "$"); i >= 0 {
